@@ -401,7 +401,10 @@ Qed.
 
 
 (* ---------------------------------------------------------------- enums *)
-Definition fulls (env : enum_env) : list str := map (with_prefix env) (ee_options env).
+(* full names of the enum's values that a rule can name: the explicit zero option, the options *)
+Definition zero_full (env : enum_env) : list str :=
+  match ee_zero env with Some z => [with_prefix env z] | None => [] end.
+Definition fulls (env : enum_env) : list str := zero_full env ++ map (with_prefix env) (ee_options env).
 
 Fixpoint nodup_str (l : list str) : bool :=
   match l with
@@ -417,6 +420,18 @@ Qed.
 
 (* the enum's value names are pairwise different (protobuf requires it) *)
 Definition wf_env (env : enum_env) : bool := nodup_str (fulls env).
+
+Lemma wf_env_parts env :
+  wf_env env = true ->
+  NoDup (map (with_prefix env) (ee_options env)) /\
+  (forall z, ee_zero env = Some z -> ~ In (with_prefix env z) (map (with_prefix env) (ee_options env))).
+Proof.
+  intro H. apply nodup_str_NoDup in H. unfold fulls, zero_full in H.
+  destruct (ee_zero env) as [z0|].
+  - cbn [app] in H. inversion H as [|? ? Hn Hd]; subst. split; [exact Hd|].
+    intros z Hz. inversion Hz; subst. exact Hn.
+  - split; [exact H|]. intros z Hz. discriminate.
+Qed.
 
 Lemma lookup_from_some env opts : forall i nm z,
   lookup_from env opts i nm = Some z ->
@@ -459,18 +474,24 @@ Qed.
 
 Lemma option_name_spec env n nm :
   option_name env n = Some nm <->
-  exists o, 1 <= n /\ nth_error (ee_options env) (Z.to_nat (n - 1)) = Some o /\ nm = with_prefix env o.
+  (exists o, 1 <= n /\ nth_error (ee_options env) (Z.to_nat (n - 1)) = Some o /\ nm = with_prefix env o)
+  \/ (n = 0 /\ exists z, ee_zero env = Some z /\ nm = with_prefix env z).
 Proof.
-  unfold option_name. split.
-  - destruct ((1 <=? n) && (n <=? Z.of_nat (length (ee_options env)))) eqn:E; [|discriminate].
-    apply andb_true_iff in E as [E1 E2]. apply Z.leb_le in E1.
-    destruct (nth_error (ee_options env) (Z.to_nat (n - 1))) as [o|] eqn:En; [|discriminate].
-    intro H; inversion H; subst. exists o. auto.
-  - intros [o [H1 [Hn Hnm]]].
-    assert (Hlt : (Z.to_nat (n - 1) < length (ee_options env))%nat).
-    { apply nth_error_Some. congruence. }
-    destruct (Z.leb_spec 1 n); [|lia]. destruct (Z.leb_spec n (Z.of_nat (length (ee_options env)))); [|lia].
-    cbn. rewrite Hn. subst. reflexivity.
+  unfold option_name. destruct (Z.eqb_spec n 0) as [E0|E0].
+  - subst n. split.
+    + destruct (ee_zero env) as [z|]; [|discriminate]. intro H; inversion H; subst. right.
+      split; [reflexivity|]. exists z. split; reflexivity.
+    + intros [[o [H1 _]]|[_ [z [Hz Hnm]]]]; [lia|]. rewrite Hz. congruence.
+  - split.
+    + destruct ((1 <=? n) && (n <=? Z.of_nat (length (ee_options env)))) eqn:E; [|discriminate].
+      apply andb_true_iff in E as [E1 E2]. apply Z.leb_le in E1.
+      destruct (nth_error (ee_options env) (Z.to_nat (n - 1))) as [o|] eqn:En; [|discriminate].
+      intro H; inversion H; subst. left. exists o. auto.
+    + intros [[o [H1 [Hn Hnm]]]|[Hz _]]; [|contradiction].
+      assert (Hlt : (Z.to_nat (n - 1) < length (ee_options env))%nat).
+      { apply nth_error_Some. congruence. }
+      destruct (Z.leb_spec 1 n); [|lia]. destruct (Z.leb_spec n (Z.of_nat (length (ee_options env)))); [|lia].
+      cbn. rewrite Hn. subst. reflexivity.
 Qed.
 
 Lemma map_values_forall2 env names : forall zs,
@@ -483,6 +504,53 @@ Proof.
     inversion H; subst. constructor; [exact E|apply IH; reflexivity].
 Qed.
 
+Lemma Forall2_in_r {A B} (R : A -> B -> Prop) l l' y :
+  Forall2 R l l' -> In y l' -> exists x, In x l /\ R x y.
+Proof.
+  induction 1 as [|a b r r' Hab Hr IH]; intro Hin; [destruct Hin|].
+  destruct Hin as [Heq|Hin].
+  - subst. exists a. split; [left; reflexivity|exact Hab].
+  - destruct (IH Hin) as [x [Hx HR]]. exists x. split; [right; exact Hx|exact HR].
+Qed.
+Lemma Forall2_in_l {A B} (R : A -> B -> Prop) l l' x :
+  Forall2 R l l' -> In x l -> exists y, In y l' /\ R x y.
+Proof.
+  induction 1 as [|a b r r' Hab Hr IH]; intro Hin; [destruct Hin|].
+  destruct Hin as [Heq|Hin].
+  - subst. exists b. split; [left; reflexivity|exact Hab].
+  - destruct (IH Hin) as [y [Hy HR]]. exists y. split; [right; exact Hy|exact HR].
+Qed.
+
+(* the number a name is mapped to is the number of the option of that full name ... *)
+Lemma map_value_name env name z :
+  map_value env name = Some z -> option_name env z = Some (with_prefix env name).
+Proof.
+  unfold map_value. intro H.
+  destruct (lookup_from env (ee_options env) 1 (with_prefix env name)) as [n|] eqn:E.
+  - inversion H; subst n. apply lookup_from_some in E as [k [o [Hk [Hz Hp]]]].
+    apply option_name_spec. left. exists o. split; [lia|]. split; [|congruence].
+    replace (Z.to_nat (z - 1)) with k by lia. exact Hk.
+  - destruct (ee_zero env) as [zn|] eqn:Ez; [|discriminate].
+    destruct (str_eqb (with_prefix env zn) (with_prefix env name)) eqn:Es; [|discriminate].
+    inversion H; subst z. apply str_eqb_eq in Es.
+    apply option_name_spec. right. split; [reflexivity|]. exists zn. split; [exact Ez|congruence].
+Qed.
+
+(* ... and, the value names being pairwise different, conversely *)
+Lemma name_map_value env name n :
+  wf_env env = true ->
+  option_name env n = Some (with_prefix env name) -> map_value env name = Some n.
+Proof.
+  intros Hwf H. apply wf_env_parts in Hwf as [Hnd Hz]. unfold map_value.
+  apply option_name_spec in H as [[o [H1 [Hn Hnm]]]|[H0 [z [Hzn Hnm]]]].
+  - rewrite Hnm. rewrite (lookup_from_nth env (ee_options env) 1 (Z.to_nat (n - 1)) o Hnd Hn).
+    f_equal. lia.
+  - subst n. destruct (lookup_from env (ee_options env) 1 (with_prefix env name)) as [m|] eqn:E.
+    + exfalso. apply lookup_from_some in E as [k [o [Hk [_ Hp]]]].
+      apply (Hz z Hzn). rewrite <- Hnm, <- Hp. apply in_map. eapply nth_error_In; eauto.
+    + rewrite Hzn, Hnm, str_eqb_refl. reflexivity.
+Qed.
+
 (* a number is among the mapped ones iff its option name is among the listed names *)
 Lemma mapped_mem env names zs n :
   wf_env env = true -> map_values env names = Ok zs ->
@@ -491,40 +559,24 @@ Lemma mapped_mem env names zs n :
               | None => false
               end.
 Proof.
-  intros Hwf Hm. apply nodup_str_NoDup in Hwf. apply map_values_forall2 in Hm.
+  intros Hwf Hm. apply map_values_forall2 in Hm.
   destruct (option_name env n) as [nm|] eqn:Eo.
-  - apply option_name_spec in Eo as [o [H1 [Hn Hnm]]]. subst nm.
-    apply eq_true_iff_eq. rewrite memZ_In, mem_str_In. unfold names_full. split.
-    + intro Hin. induction Hm as [|x z l l' Hx Hm IH]; [destruct Hin|].
-      destruct Hin as [Heq|Hin].
-      * subst z. unfold map_value in Hx. apply lookup_from_some in Hx as [k [o' [Hk [Hz Hp]]]].
-        assert (k = Z.to_nat (n - 1)) by lia. subst k. rewrite Hk in Hn. inversion Hn; subst.
-        cbn. left. symmetry. exact Hp.
-      * cbn. right. apply IH. exact Hin.
-    + intro Hin. induction Hm as [|x z l l' Hx Hm IH]; [destruct Hin|].
-      cbn in Hin. destruct Hin as [Heq|Hin].
-      * left. unfold map_value in Hx. rewrite Heq in Hx.
-        rewrite (lookup_from_nth env (ee_options env) 1 (Z.to_nat (n - 1)) o Hwf Hn) in Hx.
-        assert (Hz : 1 + Z.of_nat (Z.to_nat (n - 1)) = z) by congruence. lia.
-      * right. apply IH. exact Hin.
+  - apply eq_true_iff_eq. rewrite memZ_In, mem_str_In. unfold names_full. rewrite in_map_iff. split.
+    + intro Hin. destruct (Forall2_in_r _ _ _ _ Hm Hin) as [name [Hname Hv]].
+      exists name. split; [|exact Hname]. apply map_value_name in Hv. congruence.
+    + intros [name [Hp Hname]]. destruct (Forall2_in_l _ _ _ _ Hm Hname) as [z [Hz Hv]].
+      rewrite <- Hp in Eo. rewrite (name_map_value env name n Hwf Eo) in Hv. inversion Hv; subst. exact Hz.
   - destruct (memZ n zs) eqn:E; [|reflexivity]. exfalso.
-    apply memZ_In in E.
-    induction Hm as [|x z l l' Hx Hm IH]; [destruct E|].
-    destruct E as [Heq|Hin]; [|apply IH; exact Hin].
-    subst z. unfold map_value in Hx. apply lookup_from_some in Hx as [k [o' [Hk [Hz Hp]]]].
-    assert (Hs : option_name env n = Some (with_prefix env o')).
-    { apply option_name_spec. exists o'. split; [lia|]. split; [|reflexivity].
-      replace (Z.to_nat (n - 1)) with k by lia. exact Hk. }
-    congruence.
+    apply memZ_In in E. destruct (Forall2_in_r _ _ _ _ Hm E) as [name [_ Hv]].
+    apply map_value_name in Hv. congruence.
 Qed.
 
 Lemma option_name_defined env n nm :
   option_name env n = Some nm -> memZ n (defined_numbers env) = true.
 Proof.
-  intro H. unfold option_name in H.
-  destruct ((1 <=? n) && (n <=? Z.of_nat (length (ee_options env)))) eqn:E; [|discriminate].
-  apply andb_true_iff in E as [E1 E2]. apply Z.leb_le in E1. apply Z.leb_le in E2.
-  apply memZ_In. unfold defined_numbers. right.
+  intro H. apply memZ_In. unfold defined_numbers.
+  apply option_name_spec in H as [[o [H1 [Hn _]]]|[H0 _]]; [|left; auto].
+  right. assert (Hlt : (Z.to_nat (n - 1) < length (ee_options env))%nat) by (apply nth_error_Some; congruence).
   apply in_map_iff. exists (Z.to_nat n). split; [lia|]. apply in_seq. lia.
 Qed.
 
@@ -560,11 +612,16 @@ Lemma names_value_spec env name n :
   names_value env name n <-> option_name env n = Some (with_prefix env name).
 Proof.
   rewrite option_name_spec. unfold names_value. split.
-  - intros [i [o [f [Hn [Hi [Ho Hf]]]]]]. apply full_name_spec in Ho, Hf. subst.
-    exists o. split; [lia|]. split; [|congruence].
-    replace (Z.to_nat (Z.of_nat (S i) - 1)) with i by lia. exact Hn.
-  - intros [o [H1 [Hn Hf]]]. exists (Z.to_nat (n - 1)), o, (with_prefix env o).
-    split; [exact Hn|]. split; [lia|]. split; apply full_name_spec; [reflexivity|symmetry; exact Hf].
+  - intros [[i [o [f [Hn [Hi [Ho Hf]]]]]]|[H0 [z [f [Hz [Ho Hf]]]]]].
+    + apply full_name_spec in Ho, Hf. subst. left.
+      exists o. split; [lia|]. split; [|congruence].
+      replace (Z.to_nat (Z.of_nat (S i) - 1)) with i by lia. exact Hn.
+    + apply full_name_spec in Ho, Hf. subst. right. split; [reflexivity|]. exists z. split; [exact Hz|congruence].
+  - intros [[o [H1 [Hn Hf]]]|[H0 [z [Hz Hf]]]].
+    + left. exists (Z.to_nat (n - 1)), o, (with_prefix env o).
+      split; [exact Hn|]. split; [lia|]. split; apply full_name_spec; [reflexivity|symmetry; exact Hf].
+    + right. split; [exact H0|]. exists z, (with_prefix env z).
+      split; [exact Hz|]. split; apply full_name_spec; [reflexivity|symmetry; exact Hf].
 Qed.
 
 Lemma defined_value_spec env n : memZ n (defined_numbers env) = true <-> defined_value env n.
@@ -1453,10 +1510,10 @@ Definition w_bad_pattern : prop :=
 
 Theorem c12_unique_messages_refuted :
   forall re_ok re_match, exists o,
-    write_prop (EE [] []) 0 w_unique_obj = Ok o /\
+    write_prop (EE [] None []) 0 w_unique_obj = Ok o /\
     fvalue_typed w_unique_obj (FMany [VMsg 0]) = true /\
-    rule_sem re_match (EE [] []) w_unique_obj (FMany [VMsg 0]) /\
-    validate_sem re_ok re_match (defined_numbers (EE [] [])) o (FMany [VMsg 0]) = VError ERuntime.
+    rule_sem re_match (EE [] None []) w_unique_obj (FMany [VMsg 0]) /\
+    validate_sem re_ok re_match (defined_numbers (EE [] None [])) o (FMany [VMsg 0]) = VError ERuntime.
 Proof.
   intros re_ok re_match. eexists. split; [reflexivity|]. split; [reflexivity|]. split; [|reflexivity].
   apply (rule_semb_spec re_match). reflexivity.
@@ -1476,7 +1533,7 @@ Theorem c12_full_refuted : ~ c12_statement (fun _ _ => true).
 Proof.
   intro H.
   destruct (c12_unique_messages_refuted re_class_ok re_class_count) as [o [Hw [Hty [Hr Hv]]]].
-  destruct (H re_class_ok re_class_count class_count_engine (EE [] []) 0%N w_unique_obj o (FMany [VMsg 0])
+  destruct (H re_class_ok re_class_count class_count_engine (EE [] None []) 0%N w_unique_obj o (FMany [VMsg 0])
               eq_refl eq_refl eq_refl Hw Hty) as [Ha _].
   apply Ha in Hr. rewrite Hv in Hr. discriminate.
 Qed.
